@@ -120,7 +120,7 @@ func c06(r *Report) propMeta {
 	hp := "x/feeds/keeper.checkHavePrice"
 	r.Gate("fresh-means", hp, RetConst(0, "true"), []Cond{
 		{Op: "EQL", A: []string{"field:ValidatorPrice.SignalPriceStatus"}, B: []string{w.ConstAtom(ft, "SIGNAL_PRICE_STATUS_UNSPECIFIED")}, Want: false, Desc: "status != UNSPECIFIED"},
-		{Op: "LSS", A: []string{"^field:ValidatorPrice.Timestamp"}, B: []string{"binop:-", "call:Time.Unix", "param:blockTime", "field:Feed.Interval"}, Want: false, Desc: "timestamp >= blockTime - interval"}}, GateOpts{})
+		{Op: "LSS", A: []string{"^field:ValidatorPrice.Timestamp"}, B: []string{"^binop:-", "binops=-", "call:Time.Unix", "param:blockTime", "field:Feed.Interval"}, Want: false, Desc: "timestamp >= blockTime - interval"}}, GateOpts{})
 	r.CondCount("fresh-means-nothing-else", hp, 2)
 
 	r.Rule("C06.R4", "E9 section tables")
